@@ -285,12 +285,35 @@ def check_dependencies(ctx, db):
             tgt = st.args[1].text(ren)
             ok = norm(st.args[0].text(ren)) == tgt + '->name'
             r = recs[0]
-            guard = next((a for a in r.ancestors() if a.k == 'IfStmt'), None)
-            gc = norm(guard.child('cond').text(ren)) if guard is not None else ''
-            ok = ok and gc == '($recursive && ($result.get(%s->name) != %s))' % (tgt, tgt) and lvalue_key(r.child('obj')) == lvalue_key(st.args[1]) and norm(r.args[0].text()) == 'true'
-            # the set is not inside the recursion guard (always recorded)
-            ok = ok and not any(a is guard for a in st.ancestors())
-            why = 'guard `%s`' % gc
+            # conditions under which the recursion / the recording run, whatever mix of `&&`, nesting and guard clauses spells them
+            def conj(node):
+                out = set()
+
+                def split(c, pol):
+                    c0 = _strip_casts(c)
+                    while c0 is not None and c0.k == 'ParenExpr':
+                        c0 = _strip_casts(c0.c[0])
+                    if c0 is not None and c0.k == 'UnaryOperator' and c0.op == '!':
+                        return split(c0.child('sub'), not pol)
+                    if c0 is not None and c0.k == 'BinaryOperator' and ((c0.op == '&&' and pol) or (c0.op == '||' and not pol)):
+                        split(c0.child('lhs'), pol)
+                        split(c0.child('rhs'), pol)
+                        return
+                    t = norm(c0.text(ren)) if c0 is not None else ''
+                    if c0 is not None and c0.k == 'BinaryOperator' and c0.op == '==':
+                        t, pol = norm(c0.text(ren)).replace(' == ', ' != ', 1), not pol
+                    out.add((t.strip('()') if t.startswith('(') and t.endswith(')') and t.count('(') == t.count(')') and not t.startswith('($result.get(') else t, pol))
+                for c, pol in tables.path_conds(node):
+                    split(c, pol)
+                return out
+            gc = conj(r)
+            need = {('$recursive', True), ('($result.get(%s->name) != %s)' % (tgt, tgt), True)}
+            flat = {(t.strip('()'), p_) for t, p_ in gc}
+            ok = ok and {(t.strip('()'), p_) for t, p_ in need} <= flat and lvalue_key(r.child('obj')) == lvalue_key(st.args[1]) and norm(r.args[0].text()) == 'true'
+            # the set is always recorded: neither the recursion flag nor the already-collected test decides it
+            sc = conj(st)
+            ok = ok and not any('$recursive' in t or '$result.get(' in t for t, _ in sc)
+            why = 'the recursion runs under %s, the recording under %s' % (sorted(gc), sorted(sc))
         ctx.check(ok, 'R-SHAPE', qn + '/guarded-recursion', f.loc(), 'recurses only when the map does not already hold this pointer, and always records the target under its name', 'dependency collector shape differs: ' + why)
         lp = next((l for l in f.walk() if l.k == 'ForStmt'), None)
         arr = 'this->dependencies' if member is None else 'this->reference_array'
